@@ -9,7 +9,7 @@ ID="$1"; TIER="${2:-${VERIF_TIER:-quick}}"
 cd "$ROOT/h" || exit 2
 RACE=""; BIN=vcheck
 case "$ID" in
-  C01|C02|C03|C15|C22|C25|C29|C30|C31|C32|C34|C38) RACE="-race"; BIN=vcheck-race ;;
+  C01|C02|C03|C15|C22|C24|C25|C29|C30|C31|C32|C34|C38) RACE="-race"; BIN=vcheck-race ;;
 esac
 mkdir -p "$ROOT/.bin" "$ROOT/.work" "$ROOT/evidence"
 TMPBIN="$ROOT/.bin/$BIN.$$"
